@@ -120,11 +120,16 @@ func c04syntheticModule() map[string]ugo.Object {
 		// functions nested in container attributes
 		"ops":    ugo.Map{"double": &ugo.Function{Name: "double", Value: func(a ...ugo.Object) (ugo.Object, error) { return ugo.Int(2 * len(a)), nil }}, "k": ugo.Int(5)},
 		"hooks":  ugo.Array{&ugo.Function{Name: "h0", Value: func(a ...ugo.Object) (ugo.Object, error) { return ugo.String("h0"), nil }}, ugo.Int(1), ugo.Map{"deep": &ugo.Function{Name: "deep", Value: func(a ...ugo.Object) (ugo.Object, error) { return ugo.String("deep"), nil }}}},
+		// several values of one kind that the encoder serializes through its generic fallback, in one container
+		"err2":   &ugo.Error{Name: "ModErr2", Message: "m2", Cause: &ugo.Error{Name: "Cause", Message: "c"}},
+		"errs":   ugo.Map{"e1": &ugo.Error{Name: "E1", Message: "one"}, "e2": &ugo.Error{Name: "E2", Message: "two"}, "e3": &ugo.Error{Name: "E3", Message: "three"}},
+		"errarr": ugo.Array{&ugo.Error{Name: "A0", Message: "zero"}, &ugo.Error{Name: "A1", Message: "one"}},
+		"serrs":  &ugo.SyncMap{Value: ugo.Map{"a": &ugo.Error{Name: "SA", Message: "a"}, "b": &ugo.Error{Name: "SB", Message: "b"}}},
 		"smapfn": &ugo.SyncMap{Value: ugo.Map{"f": &ugo.Function{Name: "sf", Value: func(a ...ugo.Object) (ugo.Object, error) { return ugo.String("sf"), nil }}}},
 	}
 }
 
-const c04synthUser = "global L\nparam p\nm := import(\"synth\")\nr := [m.izero, m.ione, m.uzero, m.fzero, m.fneg, m.czero, m.ca, m.sempty, m.s, m.t, m.f, m.undef, m.bytes, m.bempty, m.arr, m.aempty, m.map, m.mempty, string(m.err), m.sync, m.fn(1, 2), m.bfn(1), m.__module_name__, m.ops.double(1, 2, 3), m.ops.k, m.hooks[0](), m.hooks[2].deep(), m.smapfn.f()]\nm.arr[0] = 99\nm.map.k = 98\nreturn p ? r : [import(\"synth\").arr, import(\"synth\").map]\n"
+const c04synthUser = "global L\nparam p\nm := import(\"synth\")\nr := [m.izero, m.ione, m.uzero, m.fzero, m.fneg, m.czero, m.ca, m.sempty, m.s, m.t, m.f, m.undef, m.bytes, m.bempty, m.arr, m.aempty, m.map, m.mempty, string(m.err), m.sync, m.fn(1, 2), m.bfn(1), m.__module_name__, m.ops.double(1, 2, 3), m.ops.k, m.hooks[0](), m.hooks[2].deep(), m.smapfn.f(), string(m.err2), string(m.err2.Cause), string(m.errs.e1), string(m.errs.e2), string(m.errs.e3), string(m.errarr[0]), string(m.errarr[1]), string(m.serrs.a), string(m.serrs.b)]\nm.arr[0] = 99\nm.map.k = 98\nreturn p ? r : [import(\"synth\").arr, import(\"synth\").map]\n"
 
 func bytecodeKinds(c *core.Ctx, bc *ugo.Bytecode) (jumps int, nonScalar int) {
 	for _, k := range bc.Constants {
